@@ -369,6 +369,12 @@ func registerNatives(e *Engine) {
 		}
 		return ex.c64(uint64(sz))
 	}
+	// single-threaded execution: locks are no-ops
+	nop := func(ex *Exec, site ssa.Instruction, args []Value) Value { return nil }
+	for _, nm := range []string{"(*sync.Mutex).Lock", "(*sync.Mutex).Unlock", "(*sync.RWMutex).Lock", "(*sync.RWMutex).Unlock", "(*sync.RWMutex).RLock", "(*sync.RWMutex).RUnlock"} {
+		n[nm] = nop
+	}
+	n["(*sync.Mutex).TryLock"] = func(ex *Exec, site ssa.Instruction, args []Value) Value { return ex.tb().True() }
 	n["errors.As"] = func(ex *Exec, site ssa.Instruction, args []Value) Value {
 		return ex.errorsAs(args[0], args[1])
 	}
